@@ -33,7 +33,7 @@ class C18(Check):
     ID = 'C18'
     TRACE_FILES = ('extparams.py', 'mixins.py', 'modulebase.py')
     TIERS = {'quick': {'runs': 12000, 'wall': 70}, 'thorough': {'runs': 300000, 'wall': 800}}
-    RULE = ('case = generated layout (struct with 2..3 members, combined or member access methods; float-enum label set; '
+    RULE = ('[up to two other clients subscribe and leave all the time; 40 % of the limit changes take 0.05 / 0.2 s with a concurrent driver-side write of the limited value] ' 'case = generated layout (struct with 2..3 members, combined or member access methods; float-enum label set; '
             'limit configuration min/max/limits; 1..3 controllers on one output) + history of <= 25 operations issued by '
             'a wire client (change/read of struct, member, float, index, limits incl. inverted, targets) or by the driver '
             '(assignments, reads), 20 % of the struct operations with a one-shot hardware fault, 30 % of struct/float-enum '
